@@ -38,8 +38,11 @@ pub struct Oracles {
     pub single_slot: bool,
     /// C10 is evaluated on DrainCheck ops whenever they occur
     /// C07 is evaluated whenever a Handoff op created a twin
-    /// stop at the first violation of any tag
-    pub _reserved: (),
+    /// C09 mode: when an oracle other than PANIC fires, do not stop: keep issuing the remaining
+    /// calls (their parameters stay in range, so they stay valid calls) and only watch for panics.
+    /// A change that first bends another property and panics a few calls later is then still
+    /// seen as what it is for C09.
+    pub continue_for_panics: bool,
 }
 
 #[derive(Serialize, Deserialize, Clone, Debug)]
@@ -60,6 +63,8 @@ pub struct Outcome {
     pub trace: Vec<String>,
     /// resolved call script (for export to the Miri replayer)
     pub script: Option<Vec<String>>,
+    /// first non-PANIC violation that was stepped over (continue_for_panics)
+    pub stepped_over: Option<Violation>,
 }
 
 fn opt(v: Option<usize>) -> String {
@@ -1284,11 +1289,35 @@ pub fn run_seq(case: &SeqCase, or: &Oracles, verbose: bool) -> Outcome {
             });
         if let Err(v) = res {
             run.log(|| format!("VIOLATION {} : {}", v.tag, v.msg));
+            if or.continue_for_panics && v.tag != "PANIC" {
+                run.out.stepped_over = Some(v);
+                run.out.steps_done = i + 1;
+                return run_degraded(run, &case.ops[i + 1..]);
+            }
             run.out.violation = Some(v);
             run.out.steps_done = i;
             return run.out;
         }
         run.out.steps_done = i + 1;
     }
+    run.out
+}
+
+/// The model no longer describes the allocator (another property's oracle fired): issue the
+/// remaining calls anyway and report only a panic of the allocator. A panic of the harness itself
+/// (its bookkeeping is not built for a diverged model) ends the case without a verdict.
+fn run_degraded(mut run: Run, rest: &[Op]) -> Outcome {
+    for op in rest {
+        run.step += 1;
+        match guarded(|| run.exec(op)) {
+            Ok(Err(v)) if v.tag == "PANIC" => {
+                run.out.violation = Some(v);
+                return run.out;
+            }
+            Ok(_) => {}
+            Err(_) => break,
+        }
+    }
+    run.out.violation = run.out.stepped_over.clone();
     run.out
 }
